@@ -791,6 +791,30 @@ def _expand(fi: FuncInfo, caller_names: set[str], st: ast.stmt, select: Callable
         if not _always_leaves(new_body):
             new_body = new_body + [ast.copy_location(ast.Return(value=None), st)]
     else:
+        if thread is not None:
+            # a return inside a loop of the helper whose threaded continuation always leaves (e.g. `return True` where the caller
+            # does `if h(..): return <refusal>`): the continuation simply takes the return's place - nothing has to leave the loop
+            def in_loop_returns(stmts_: list[ast.stmt], inside: bool) -> None:
+                for i_, s_ in enumerate(list(stmts_)):
+                    if getattr(s_, "_caller_stmt", False) or isinstance(s_, (ast.FunctionDef, ast.AsyncFunctionDef, ast.ClassDef)):
+                        continue
+                    if isinstance(s_, ast.Return) and inside:
+                        rep = result(s_.value, s_)
+                        if _always_leaves(rep):
+                            for r_ in rep:
+                                r_._caller_stmt = True  # type: ignore[attr-defined]
+                            k_ = stmts_.index(s_)
+                            stmts_[k_:k_ + 1] = rep
+                        continue
+                    loop = isinstance(s_, (ast.For, ast.While, ast.AsyncFor))
+                    for f_ in ("body", "orelse", "finalbody"):
+                        v_ = getattr(s_, f_, None)
+                        if isinstance(v_, list) and v_ and isinstance(v_[0], ast.stmt):
+                            in_loop_returns(v_, inside or (loop and f_ == "body"))
+                    for hd_ in getattr(s_, "handlers", []) or []:
+                        in_loop_returns(hd_.body, inside)
+
+            in_loop_returns(renamed_body, False)
         try:
             new_body, exits = eliminate_returns(renamed_body, result)
             if not exits and targets:
@@ -1194,12 +1218,64 @@ def split_conditional_returns(fi: FuncInfo) -> FuncInfo:
     return replace(fi, node=node)
 
 
+def _collapse_result_temps(fn: ast.AST) -> None:
+    """`_h_result = flag` directly followed by `if [not] _h_result:` (the temporary a helper call in a test was bound to, after the
+    helper turned out to hand back a plain local) and used nowhere else: the test reads the local itself"""
+    uses: dict[str, int] = {}
+    for n in ast.walk(fn):
+        if isinstance(n, ast.Name) and n.id.startswith("_") and "_result" in n.id:
+            uses[n.id] = uses.get(n.id, 0) + 1
+    for owner in ast.walk(fn):
+        for f in ("body", "orelse", "finalbody"):
+            blk = getattr(owner, f, None)
+            if not (isinstance(blk, list) and blk and isinstance(blk[0], ast.stmt)):
+                continue
+            i = 0
+            while i + 1 < len(blk):
+                a, b = blk[i], blk[i + 1]
+                if isinstance(a, ast.Assign) and len(a.targets) == 1 and isinstance(a.targets[0], ast.Name) and uses.get(a.targets[0].id) == 2 and isinstance(a.value, ast.Name) and getattr(a, "_was_return", False) and isinstance(b, ast.If):
+                    tmp = a.targets[0].id
+                    t = b.test
+                    holder = None
+                    while isinstance(t, ast.UnaryOp) and isinstance(t.op, ast.Not):
+                        holder, t = t, t.operand
+                    if isinstance(t, ast.Name) and t.id == tmp:
+                        new = ast.copy_location(ast.Name(id=a.value.id, ctx=ast.Load()), t)
+                        if holder is None:
+                            b.test = new
+                        else:
+                            holder.operand = new
+                        del blk[i]
+                        continue
+                i += 1
+
+
 def _split_walrus_ifs(stmts: list[ast.stmt], is_helper_call: Callable[[ast.Call], bool], is_expression_helper: Callable[[ast.Call], bool] = lambda c: True, taken: set[str] | None = None) -> list[ast.stmt]:
     """`if (x := h(..)) is None: ...` -> `x = h(..)` ; `if x is None: ...` when the walrus is what the test evaluates first (so it is
     evaluated exactly once, unconditionally, before anything else of the statement) and h is a helper that is read in place"""
     out: list[ast.stmt] = []
     taken = taken if taken is not None else set()
+
+    def leading_call(e: ast.AST) -> ast.Call | None:
+        while isinstance(e, ast.UnaryOp) and isinstance(e.op, ast.Not):
+            e = e.operand
+        if isinstance(e, ast.Compare):
+            e = e.left
+        return e if isinstance(e, ast.Call) else None
+
     for st in stmts:
+        if isinstance(st, ast.If) and isinstance(st.test, ast.BoolOp) and isinstance(st.test.op, ast.And) and not st.orelse:
+            # `if A and h(..): BODY` (no else) is `if A: if h(..): BODY`: the helper call becomes the first thing a test evaluates
+            vals = st.test.values
+            for i in range(1, len(vals)):
+                c = leading_call(vals[i])
+                if c is not None and is_helper_call(c) and not is_expression_helper(c):
+                    inner = ast.If(test=vals[i] if i == len(vals) - 1 else ast.BoolOp(op=ast.And(), values=vals[i:]), body=st.body, orelse=[])
+                    ast.fix_missing_locations(ast.copy_location(inner, st))
+                    st.test = vals[0] if i == 1 else ast.BoolOp(op=ast.And(), values=vals[:i])
+                    ast.fix_missing_locations(st.test)
+                    st.body = [inner]
+                    break
         if isinstance(st, ast.If):
             holder: list[tuple[ast.AST, str | None, int | None]] = []
 
@@ -1453,6 +1529,7 @@ def inline_helpers(fi: FuncInfo, select: Callable[[FuncInfo, ast.Call, ast.stmt]
             return out
 
         node.body = walk(node.body)  # type: ignore[attr-defined]
+        _collapse_result_temps(node)
         if not changed:
             break
     for parent in ast.walk(node):
